@@ -76,6 +76,11 @@ class Nullness:
             inner = recv[1]
             if inner[0] == 'call' and term_name(inner[1]) in RAW_CTORS:
                 return 'raw'
+            if inner[0] == 'call' and inner[1][0] == 'g':
+                # a context-manager helper of the package (@contextmanager generator) that yields such a stream object
+                lk = s.m.lookup(inner[1])
+                if lk and lk[0] == 'func' and s._yields_raw_stream(getattr(lk[1], '_home', inner[1][1]), lk[1]):
+                    return 'raw'
         if recv[0] == 'call' and term_name(recv[1]) in RAW_CTORS:
             return 'raw'
         if recv[0] == 'ext':
@@ -83,6 +88,36 @@ class Nullness:
         if recv[0] == 'attr' and recv[1][0] == 'ext':
             return 'raw'
         return 'optional'
+
+    def _yields_raw_stream(s, mod, fn):
+        """a @contextmanager generator whose every yield hands out an object made by one of the stream constructors"""
+        if not any((isinstance(d, ast.Name) and d.id == 'contextmanager') or (isinstance(d, ast.Attribute) and d.attr == 'contextmanager') for d in fn.decorator_list):
+            return False
+        bound = {}
+        for n in ast.walk(fn):
+            if isinstance(n, ast.With):
+                for it in n.items:
+                    if isinstance(it.optional_vars, ast.Name):
+                        bound.setdefault(it.optional_vars.id, []).append(it.context_expr)
+            elif isinstance(n, ast.Assign) and len(n.targets) == 1 and isinstance(n.targets[0], ast.Name):
+                bound.setdefault(n.targets[0].id, []).append(n.value)
+        ys = [n for n in ast.walk(fn) if isinstance(n, ast.Yield)]
+        if not ys:
+            return False
+
+        def raw(e):
+            if isinstance(e, ast.Call):
+                t = s.sx.term(e.func, {}, mod)
+                return term_name(t) in RAW_CTORS
+            return False
+        for y in ys:
+            v = y.value
+            if isinstance(v, ast.Name) and v.id in bound and all(raw(e) for e in bound[v.id]):
+                continue
+            if raw(v):
+                continue
+            return False
+        return True
 
     # ---------------------------------------------------------------- function table
     def functions(s):
